@@ -3,12 +3,17 @@
   Property theorems only (model: PgModel/Hyper.lean, specification predicates:
   PgModel/HyperSpec.lean, lemmas: PgProofs/Hyper.lean).
 
-  Reading guide. `W` is the `where` filter (a predicate on placeholder tags; `fun _ => true` is
-  "no filter"). A value is a template without selected placeholders. `validG g d` is exactly
-  what `DNASpec.validate` accepts, `validG g d` additionally forbids a stray value on a node
-  whose children carry the decisions (finding F85). `nfD d` says that `d` is a DNA object (what
-  the `DNA` constructor can produce). `wfT t` is what the constructors of `OneOf` / `ManyOf` /
-  `geno.Choices` enforce (`OneOf` has one choice, `num_choices >= 1`).
+  Reading guide. `W : Cfg` bundles the `where` filter (`W tag`, a predicate on placeholder tags;
+  `noFilter` selects everything) with the *user hooks* of custom hyper primitives (`W.dec cid` =
+  `custom_decode`, `W.enc cid` = `custom_encode`, `W.dom cid` = the genomes the hooks call their
+  own). The hooks are parameters; what is assumed about them is an explicit hypothesis:
+  `HooksLawful W` (on `dom`: decode succeeds, returns a placeholder-free value, encode maps it back),
+  `HooksPlain W` (decode never returns placeholders), `HooksEncSound W` (encode ∘ decode on arbitrary
+  values). Templates without custom hypers satisfy all three for the trivial hooks (`noHooks`).
+  A value is a template without selected placeholders. `validG dom g d`: `dom = fun _ _ => true` is
+  exactly what `DNASpec.validate` accepts (any str-valued DNA for a custom decision point);
+  `validG W.dom` additionally keeps custom genomes within the hooks' range. `nfD d`: `d` is a DNA
+  object. `wfT t`: what the constructors of `OneOf` / `ManyOf` / `geno.Choices` enforce.
 -/
 import PgModel.HyperSpec
 import PgProofs.Hyper
@@ -16,34 +21,80 @@ import PgProofs.HyperEnum
 import PgProofs.HyperDist
 import PgProofs.HyperSound
 import PgProofs.HyperBound
+import PgProofs.HyperChoice
 namespace Pg.C13
+
+/-! ## Hooks -/
+
+/-- No custom hooks (for templates without custom hyper primitives), filter `f`. -/
+def noHooks (f : Nat → Bool) : Cfg := ⟨f, fun _ _ => none, fun _ _ => none, fun _ _ => false⟩
+
+def noFilter : Cfg := noHooks (fun _ => true)
+
+theorem noHooks_lawful (f : Nat → Bool) :
+    HooksLawful (noHooks f) ∧ HooksPlain (noHooks f) ∧ HooksEncSound (noHooks f) :=
+  ⟨fun _ _ h => by simp [noHooks] at h, fun _ _ _ h => by simp [noHooks] at h,
+   fun _ _ _ h => by simp [noHooks] at h⟩
+
+/-- A well-behaved custom hyper (the harness's `StrId`): the decoded value *is* the genome string. -/
+def strHooks (f : Nat → Bool) : Cfg where
+  sel := f
+  dec := fun _ d => match d with
+    | .mk (some (.str g)) [] => some (.const (.str g))
+    | _ => none
+  enc := fun _ v => match v with
+    | .const (.str g) => some (.mk (some (.str g)) [])
+    | _ => none
+  dom := fun _ d => match d with
+    | .mk (some (.str _)) [] => true
+    | _ => false
+
+/-- The hypotheses are satisfiable by a non-trivial hook. -/
+theorem strHooks_lawful (f : Nat → Bool) :
+    HooksLawful (strHooks f) ∧ HooksPlain (strHooks f) ∧ HooksEncSound (strHooks f) := by
+  refine ⟨?_, ?_, ?_⟩
+  · intro cid d h
+    match d, h with
+    | .mk (some (.str g)) [], _ => exact ⟨.const (.str g), rfl, rfl, rfl⟩
+  · intro cid d v h
+    match d, h with
+    | .mk (some (.str g)) [], h =>
+      simp only [strHooks, Option.some.injEq] at h
+      subst h; rfl
+  · intro cid v d h
+    match v, h with
+    | .const (.str g), h =>
+      simp only [strHooks, Option.some.injEq] at h
+      subst h
+      exact ⟨by simp [nfD, nfL], ⟨g, rfl⟩, .const (.str g), rfl, by simp [eqvT, Atom.pyEq]⟩
 
 /-! ## Decode -/
 
 /-- For every template, every filter and every DNA that `validate` accepts: decoding succeeds,
 the result has no selected placeholder left, and it has the shape the template prescribes. -/
-theorem C13_decode_total (W : Nat → Bool) (t : Tmpl) (d : DNA)
-    (hwf : wfT t = true) (hv : validG (dnaSpec W t) d = true) :
+theorem C13_decode_total (W : Cfg) (t : Tmpl) (d : DNA)
+    (hL : HooksLawful W) (hP : HooksPlain W)
+    (hwf : wfT t = true) (hv : validG W.dom (dnaSpec W t) d = true) :
     ∃ v, decode W t d = .ok v ∧ detT W v = true ∧ shapeT W t v = true := by
-  obtain ⟨v, hdec, _⟩ := StD_all W t d hv
-  exact ⟨v, hdec, DsD_all W t hwf d v hdec⟩
+  obtain ⟨v, hdec, _⟩ := StD_all W hL t d hv
+  exact ⟨v, hdec, DsD_all W hP t hwf d v hdec⟩
 
 /-- The same two facts for *any* successful decode (also of a DNA `validate` would reject). -/
-theorem C13_decode_shape (W : Nat → Bool) (t : Tmpl) (d : DNA) (v : Tmpl)
-    (hwf : wfT t = true) (hdec : decode W t d = .ok v) :
+theorem C13_decode_shape (W : Cfg) (t : Tmpl) (d : DNA) (v : Tmpl)
+    (hP : HooksPlain W) (hwf : wfT t = true) (hdec : decode W t d = .ok v) :
     detT W v = true ∧ shapeT W t v = true :=
-  DsD_all W t hwf d v hdec
+  DsD_all W hP t hwf d v hdec
 
 /-- Without a filter the decoded value contains no placeholder at all (`pg.is_deterministic`). -/
-theorem C13_decode_deterministic_value (t : Tmpl) (d : DNA) (v : Tmpl)
-    (hwf : wfT t = true) (hdec : decode (fun _ => true) t d = .ok v) :
-    detT (fun _ => true) v = true :=
-  (DsD_all _ t hwf d v hdec).1
+theorem C13_decode_deterministic_value (W : Cfg) (hP : HooksPlain W) (hall : ∀ tag, W tag = true)
+    (t : Tmpl) (d : DNA) (v : Tmpl) (hwf : wfT t = true) (hdec : decode W t d = .ok v) :
+    detT W v = true ∧ ∀ tag, W tag = true :=
+  ⟨(DsD_all W hP t hwf d v hdec).1, hall⟩
 
 /-- Decoding is a function: two decodes of the same DNA give the same value. In the pure model
 `decode` / `encode` cannot modify the template; on the code this part of the property is carried
 by the correspondence run (template JSON before / after every call). -/
-theorem C13_deterministic (W : Nat → Bool) (t : Tmpl) (d : DNA) (v₁ v₂ : Tmpl)
+theorem C13_deterministic (W : Cfg) (t : Tmpl) (d : DNA) (v₁ v₂ : Tmpl)
     (h₁ : decode W t d = .ok v₁) (h₂ : decode W t d = .ok v₂) : v₁ = v₂ := by
   rw [h₁] at h₂; cases h₂; rfl
 
@@ -54,27 +105,28 @@ theorem C13_deterministic (W : Nat → Bool) (t : Tmpl) (d : DNA) (v₁ v₂ : T
 and in candidates of other placeholders to any depth; all four `distinct` × `sorted` modes; any
 filter. (Until finding F85 was repaired in `validate` this needed an exclusion: a stray value on
 the root of a multi-element space / on a multi-choice node was accepted and lost.) -/
-theorem C13_inverse (W : Nat → Bool) (t : Tmpl) (d : DNA) (v : Tmpl)
+theorem C13_inverse (W : Cfg) (t : Tmpl) (d : DNA) (v : Tmpl)
+    (hL : HooksLawful W)
     (hwf : wfT t = true) (hdist : DistT W t) (hnf : nfD d = true)
-    (hv : validG (dnaSpec W t) d = true) (hdec : decode W t d = .ok v) :
+    (hv : validG W.dom (dnaSpec W t) d = true) (hdec : decode W t d = .ok v) :
     encode W t v = .ok d := by
-  obtain ⟨v', hdec', henc⟩ := StD_all W t d hv
+  obtain ⟨v', hdec', henc⟩ := StD_all W hL t d hv
   rw [hdec] at hdec'
   cases hdec'
   exact henc hwf hdist hnf
 
 /-- The same as an existence statement: a valid DNA object of a distinguishable template
 decodes, and the decoded value encodes back to it. -/
-theorem C13_inverse_exists (W : Nat → Bool) (t : Tmpl) (d : DNA)
+theorem C13_inverse_exists (W : Cfg) (t : Tmpl) (d : DNA)
+    (hL : HooksLawful W)
     (hwf : wfT t = true) (hdist : DistT W t) (hnf : nfD d = true)
-    (hv : validG (dnaSpec W t) d = true) :
+    (hv : validG W.dom (dnaSpec W t) d = true) :
     ∃ v, decode W t d = .ok v ∧ encode W t v = .ok d := by
-  obtain ⟨v', hdec', henc⟩ := StD_all W t d hv
+  obtain ⟨v', hdec', henc⟩ := StD_all W hL t d hv
   exact ⟨v', hdec', henc hwf hdist hnf⟩
 
 /-! ### Witnesses -/
 
-def noFilter : Nat → Bool := fun _ => true
 
 /-- `pg.Dict(a=pg.floatv(0, 1), b=pg.floatv(0, 1))`. -/
 def tTwoFloats : Tmpl :=
@@ -87,7 +139,7 @@ def dStray : DNA := .mk (some (.idx 5)) [.mk (some (.flt ⟨0, 0⟩)) [], .mk (s
 `validate` now rejects it, which is why `C13_inverse` needs no exclusion. Its witness is replayed on
 the code on every run (a `fixed` finding). -/
 theorem C13_stray_value_rejected :
-    nfD dStray = true ∧ validG (dnaSpec noFilter tTwoFloats) dStray = false ∧
+    nfD dStray = true ∧ validG noFilter.dom (dnaSpec noFilter tTwoFloats) dStray = false ∧
     (∃ v, decode noFilter tTwoFloats dStray = .ok v ∧
       encode noFilter tTwoFloats v = .ok (.mk none [.mk (some (.flt ⟨0, 0⟩)) [], .mk (some (.flt ⟨1, 0⟩)) []])) :=
   ⟨by decide, by decide, _, rfl, rfl⟩
@@ -98,15 +150,122 @@ def tAmbiguous : Tmpl := .choice 1 true 1 [.const (.int 1), .const (.int 1)] tru
 /-- "Whenever the candidates are distinguishable" cannot be dropped: `oneof([1, 1])` decodes
 `DNA(1)` to `1` and encodes `1` to `DNA(0)` (first matching candidate wins). -/
 theorem C13_inverse_needs_distinguishable :
-    ¬ (∀ (W : Nat → Bool) (t : Tmpl) (d : DNA) (v : Tmpl),
-        wfT t = true → nfD d = true → validG (dnaSpec W t) d = true →
+    ¬ (∀ (W : Cfg) (t : Tmpl) (d : DNA) (v : Tmpl), HooksLawful W →
+        wfT t = true → nfD d = true → validG W.dom (dnaSpec W t) d = true →
         decode W t d = .ok v → encode W t v = .ok d) := by
   intro h
   have hd : decode noFilter tAmbiguous (.mk (some (.idx 1)) []) = .ok (.const (.int 1)) := by rfl
-  have h1 := h noFilter tAmbiguous (.mk (some (.idx 1)) []) _ (by decide) (by decide) (by decide) hd
+  have h1 := h noFilter tAmbiguous (.mk (some (.idx 1)) []) _ (noHooks_lawful _).1 (by decide) (by decide) (by decide) hd
   have h2 : encode noFilter tAmbiguous (.const (.int 1)) = .ok (.mk (some (.idx 0)) []) := by rfl
   rw [h2] at h1
   cases h1
+
+/-! ## Custom hyper primitives (`CustomHyper` subclasses, `pg.evolve`) -/
+
+/-- `pg.Dict(x=pg.oneof([StrId(), 5]), y=StrId())` with `StrId` the custom hyper of `strHooks`. -/
+def tCustom : Tmpl :=
+  .node (.dict ["x", "y"]) [.choice 1 true 1 [.custom 2 0, .const (.int 5)] true false, .custom 3 0]
+
+/-- The inverse law for a template with custom hypers nested in a choice, under the hooks' contract
+(an instance of `C13_inverse`; spelled out with all hypotheses discharged for the lawful `strHooks`).
+`DistT` is proved by hand here: a custom hyper may encode anything, so the head-level check
+`headDistinct` never certifies a choice that has a custom candidate. -/
+theorem C13_custom_inverse (d : DNA) (v : Tmpl)
+    (hdist : DistT (strHooks fun _ => true) tCustom) (hnf : nfD d = true)
+    (hv : validG (strHooks fun _ => true).dom (dnaSpec (strHooks fun _ => true) tCustom) d = true)
+    (hdec : decode (strHooks fun _ => true) tCustom d = .ok v) :
+    encode (strHooks fun _ => true) tCustom v = .ok d :=
+  C13_inverse _ tCustom d v (strHooks_lawful _).1 (by decide) hdist hnf hv hdec
+
+example : validG (strHooks fun _ => true).dom (dnaSpec (strHooks fun _ => true) tCustom)
+    (.mk none [.mk (some (.idx 0)) [.mk (some (.str "ab")) []], .mk (some (.str "c")) []]) = true := by decide
+example : decode (strHooks fun _ => true) tCustom
+    (.mk none [.mk (some (.idx 0)) [.mk (some (.str "ab")) []], .mk (some (.str "c")) []]) =
+    .ok (.node (.dict ["x", "y"]) [.const (.str "ab"), .const (.str "c")]) := by rfl
+
+/-- An ill-behaved hook: `custom_encode` always answers the genome "b". -/
+def badHooks : Cfg :=
+  { strHooks (fun _ => true) with enc := fun _ _ => some (.mk (some (.str "b")) []) }
+
+/-- The hooks' contract cannot be dropped: with `badHooks` the DNA `"a"` is valid, decodes, and is
+encoded to `"b"`. (The harness reports such hooks as *hypothesis-violating*, not as a defect.) -/
+theorem C13_inverse_needs_lawful_hooks :
+    ¬ (∀ (W : Cfg) (t : Tmpl) (d : DNA) (v : Tmpl),
+        wfT t = true → DistT W t → nfD d = true → validG W.dom (dnaSpec W t) d = true →
+        decode W t d = .ok v → encode W t v = .ok d) := by
+  intro h
+  have h1 := h badHooks (.custom 1 0) (.mk (some (.str "a")) []) (.const (.str "a")) (by decide)
+    (by simp [DistT]) (by decide) (by decide) (by rfl)
+  have h2 : encode badHooks (.custom 1 0) (.const (.str "a")) = .ok (.mk (some (.str "b")) []) := by rfl
+  rw [h2] at h1
+  simp at h1
+
+/-! ## ManyOf constraints and the first-match rule -/
+
+/-- Every DNA that the spec of a selected `manyof` (any `distinct` × `sorted` mode, nested candidates
+allowed) accepts is decoded, and the decoded value encodes back to that DNA (instance of
+`C13_inverse` at a root `manyof`, stated for reference). -/
+theorem C13_manyof_roundtrip (W : Cfg) (hL : HooksLawful W) (tag k : Nat) (cands : List Tmpl) (dst so : Bool)
+    (d : DNA) (hwf : wfT (.choice tag false k cands dst so) = true)
+    (hdist : DistT W (.choice tag false k cands dst so)) (hnf : nfD d = true)
+    (hv : validG W.dom (dnaSpec W (.choice tag false k cands dst so)) d = true) :
+    ∃ v, decode W (.choice tag false k cands dst so) d = .ok v ∧
+      encode W (.choice tag false k cands dst so) v = .ok d :=
+  C13_inverse_exists W _ d hL hwf hdist hnf hv
+
+/-- `Choices._decode` rejects every DNA outside the constrained space: if a selected multi-choice
+(`k ≠ 1`) decodes a DNA at all, the DNA has exactly `k` integer sub-choices and their index sequence
+satisfies the `distinct` / `sorted` constraints that `dna_spec` hands to `geno.Choices`. -/
+theorem C13_manyof_decode_constrained (W : Cfg) (tag k : Nat) (one : Bool) (cands : List Tmpl) (dst so : Bool)
+    (d : DNA) (v : Tmpl) (hW : W tag = true) (hk : k ≠ 1)
+    (h : decode W (.choice tag one k cands dst so) d = .ok v) :
+    d.children.length = k ∧ ∃ is, allIdx d.children = some is ∧ constraintOk dst so is = true :=
+  manyof_decode_constrained W tag k one cands dst so d v hW hk h
+
+/-- The `distinct` / `sorted` flags and `k` reach `geno.Choices` unchanged through `dna_spec`. -/
+theorem C13_manyof_spec (W : Cfg) (tag k : Nat) (one : Bool) (cands : List Tmpl) (dst so : Bool)
+    (hW : W tag = true) :
+    dnaSpec W (.choice tag one k cands dst so) = .space [.choices k (cands.map (dnaSpec W)) dst so] := by
+  simp [dnaSpec, specT, hW, candSpecs_eq]
+
+example : decode noFilter (.choice 1 false 2 [.const (.int 1), .const (.int 2), .const (.int 3)] true true)
+    (.mk none [.mk (some (.idx 1)) [], .mk (some (.idx 0)) []]) = .error .value := by rfl   -- not sorted
+example : decode noFilter (.choice 1 false 2 [.const (.int 1), .const (.int 2), .const (.int 3)] true false)
+    (.mk none [.mk (some (.idx 1)) [], .mk (some (.idx 1)) []]) = .error .value := by rfl   -- not distinct
+
+/-- The sweep of a multi-choice (what `pg.iter` walks through) only produces index sequences of
+length `k` that satisfy the `distinct` / `sorted` constraints: iteration never leaves the
+constrained space that `validate` / `decode` accept. -/
+theorem C13_manyof_sweep_constrained (subs : List (List DNA)) (dst so : Bool) (k : Nat) :
+    ∀ ds ∈ enumMulti subs dst so k [],
+      ∃ is, allIdx ds = some is ∧ is.length = k ∧ constraintOk dst so is = true := by
+  intro ds hds
+  obtain ⟨is, h1, h2, h3⟩ := enumMulti_constrained subs dst so k [] (by simp [constraintOk, nodupNat, sortedNat]) ds hds
+  exact ⟨is, h1, h2, by simpa using h3⟩
+
+/-- **First-match rule of `encode`.** A value that several candidates of a selected `oneof` can
+encode is attributed to the *first* of them: the DNA carries the least matching index. -/
+theorem C13_first_match (W : Cfg) (tag k : Nat) (cands : List Tmpl) (dst so : Bool) (v : Tmpl) (d : DNA)
+    (hW : W tag = true) (h : encode W (.choice tag true k cands dst so) v = .ok d) :
+    ∃ i c child, cands[i]? = some c ∧ encode W c v = .ok child ∧
+      (∀ j cj, j < i → cands[j]? = some cj → ∀ d', encode W cj v ≠ .ok d') ∧
+      d = DNA.norm none [DNA.norm none [DNA.norm (some (.idx i)) [child]]] :=
+  oneof_encode_first_match W tag k cands dst so v d hW h
+
+/-! ## Dynamic evaluation (`pg.hyper.trace` / `DynamicEvaluationContext`) -/
+
+/-- A function that requests the placeholders `ps` one after the other is modelled as the template
+`[p₁, …, pₙ]`: the decision points are collected in call order, each with its own sub-space, and the
+`where` filter drops exactly the unselected ones (a filtered-out choice is still searched for
+selected placeholders inside its candidates). On the code, `pg.hyper.trace(fn, where).dna_spec` and
+`ctx.apply(dna)` are compared with this model on every generated case. -/
+theorem C13_trace_collection (W : Cfg) (ps : List Tmpl) :
+    dnaSpec W (.node .list ps) = .space (ps.flatMap (specT W)) := by
+  simp only [dnaSpec, specT]
+  congr 1
+  induction ps with
+  | nil => simp [specL]
+  | cons p ps ih => simp [specL, ih]
 
 /-! ## A decidable sufficient condition for "distinguishable" -/
 
@@ -114,26 +273,27 @@ theorem C13_inverse_needs_distinguishable :
 kind and size, float range, filtered-out placeholder) of anything a later candidate decodes to,
 the candidates are distinguishable. This is the condition the harness evaluates
 (`head_distinct`) before it demands `encode(decode(d)) == d` of the real code. -/
-theorem C13_headDistinct_sufficient (W : Nat → Bool) (t : Tmpl)
-    (hwf : wfT t = true) (h : headDistinct W t = true) : DistT W t :=
-  headDistinct_sound W t hwf h
+theorem C13_headDistinct_sufficient (W : Cfg) (t : Tmpl)
+    (hP : HooksPlain W) (hwf : wfT t = true) (h : headDistinct W t = true) : DistT W t :=
+  headDistinct_sound W hP t hwf h
 
 /-- The inverse law with decidable hypotheses only. -/
-theorem C13_inverse_decidable (W : Nat → Bool) (t : Tmpl) (d : DNA) (v : Tmpl)
+theorem C13_inverse_decidable (W : Cfg) (t : Tmpl) (d : DNA) (v : Tmpl)
+    (hL : HooksLawful W) (hP : HooksPlain W)
     (hwf : wfT t = true) (hhd : headDistinct W t = true) (hnf : nfD d = true)
-    (hv : validG (dnaSpec W t) d = true) (hdec : decode W t d = .ok v) :
+    (hv : validG W.dom (dnaSpec W t) d = true) (hdec : decode W t d = .ok v) :
     encode W t v = .ok d :=
-  C13_inverse W t d v hwf (headDistinct_sound W t hwf hhd) hnf hv hdec
+  C13_inverse W t d v hL hwf (headDistinct_sound W hP t hwf hhd) hnf hv hdec
 
 /-- Decoding is injective on strictly valid DNA objects of a distinguishable template: different
 DNAs give different values. -/
-theorem C13_decode_injective (W : Nat → Bool) (t : Tmpl) (d₁ d₂ : DNA) (v : Tmpl)
+theorem C13_decode_injective (W : Cfg) (t : Tmpl) (d₁ d₂ : DNA) (v : Tmpl) (hL : HooksLawful W)
     (hwf : wfT t = true) (hdist : DistT W t)
-    (hnf₁ : nfD d₁ = true) (hv₁ : validG (dnaSpec W t) d₁ = true) (h₁ : decode W t d₁ = .ok v)
-    (hnf₂ : nfD d₂ = true) (hv₂ : validG (dnaSpec W t) d₂ = true) (h₂ : decode W t d₂ = .ok v) :
+    (hnf₁ : nfD d₁ = true) (hv₁ : validG W.dom (dnaSpec W t) d₁ = true) (h₁ : decode W t d₁ = .ok v)
+    (hnf₂ : nfD d₂ = true) (hv₂ : validG W.dom (dnaSpec W t) d₂ = true) (h₂ : decode W t d₂ = .ok v) :
     d₁ = d₂ := by
-  have e₁ := C13_inverse W t d₁ v hwf hdist hnf₁ hv₁ h₁
-  have e₂ := C13_inverse W t d₂ v hwf hdist hnf₂ hv₂ h₂
+  have e₁ := C13_inverse W t d₁ v hL hwf hdist hnf₁ hv₁ h₁
+  have e₂ := C13_inverse W t d₂ v hL hwf hdist hnf₂ hv₂ h₂
   rw [e₁] at e₂
   cases e₂
   rfl
@@ -144,7 +304,7 @@ theorem C13_decode_injective (W : Nat → Bool) (t : Tmpl) (d₁ d₂ : DNA) (v 
 model of the sweep, `sizeG` of `space_size`; both are tied to the code by the correspondence
 run. That the swept DNAs are pairwise different valid DNA objects is C11's theorem; together with
 `C13_decode_injective` it gives pairwise different values.) -/
-theorem C13_iter_count (W : Nat → Bool) (t : Tmpl) (n : Nat)
+theorem C13_iter_count (W : Cfg) (t : Tmpl) (n : Nat)
     (h : sizeG (dnaSpec W t) = some n) : (iter W t).length = n := by
   simp [iter, enumG_length _ n h]
 
@@ -158,8 +318,8 @@ def tNestedSound : Tmpl :=
 /-- `encode t v = ok d → d` is valid — not demanded by the property, and false on the code:
 `Choices.encode` does not check the `distinct` / `sorted` constraints. -/
 def C13_encode_sound_Full : Prop :=
-  ∀ (W : Nat → Bool) (t v : Tmpl) (d : DNA),
-    wfT t = true → encode W t v = .ok d → validG (dnaSpec W t) d = true
+  ∀ (W : Cfg) (t v : Tmpl) (d : DNA),
+    wfT t = true → encode W t v = .ok d → validG W.dom (dnaSpec W t) d = true
 
 /-- `pg.manyof(2, [1, 2, 3])` (distinct) encodes `[1, 1]` to `DNA([0, 0])`, which `validate` rejects. -/
 theorem C13_encode_sound_counterexample : ¬ C13_encode_sound_Full := by
@@ -175,16 +335,16 @@ theorem C13_encode_sound_counterexample : ¬ C13_encode_sound_Full := by
 `encode` returns is a DNA object, and **if it is valid** it decodes to a value equal (Python `==`:
 structural, `1 == 1.0` at the leaves) to the encoded one. The excluded case is exactly the one of the
 counterexample above (`validG … d = false`, decidable). -/
-theorem C13_encode_sound_partial (W : Nat → Bool) (t v : Tmpl) (d : DNA)
+theorem C13_encode_sound_partial (W : Cfg) (t v : Tmpl) (d : DNA) (hE : HooksEncSound W)
     (henc : encode W t v = .ok d) :
     nfD d = true ∧
-    (validG (dnaSpec W t) d = true → ∃ v', decode W t d = .ok v' ∧ eqvT v' v = true) :=
-  EsD_all W t v d henc
+    (validG W.dom (dnaSpec W t) d = true → ∃ v', decode W t d = .ok v' ∧ eqvT v' v = true) :=
+  EsD_all W hE t v d henc
 
 example : encode noFilter tTwoFloats (.node (.dict ["a", "b"]) [.const (.flt ⟨1, 1⟩), .const (.int 1)]) =
     .error .value := by rfl      -- the int 1 is not a float: rejected, as `Float.encode` does
 example : ∃ d, encode noFilter tNestedSound (.node .list [.const (.flt ⟨2, 0⟩), .const (.int 7)]) = .ok d ∧
-    validG (dnaSpec noFilter tNestedSound) d = true := ⟨_, rfl, by decide⟩
+    validG noFilter.dom (dnaSpec noFilter tNestedSound) d = true := ⟨_, rfl, by decide⟩
 
 /-! ## Bound value specs -/
 
@@ -193,16 +353,17 @@ example : ∃ d, encode noFilter tNestedSound (.node .list [.const (.flt ⟨2, 0
 field accepted the template at binding time (`okB`: a number within the bounds, a `floatv` whose
 range is within the bounds, a `oneof` of accepted candidates), it accepts every decoded value —
 for every filter (a filtered-out placeholder left in place is still accepted). -/
-theorem C13_bound_spec_accepts (W : Nat → Bool) (b : Bound) (t : Tmpl) (d : DNA) (v : Tmpl)
+theorem C13_bound_spec_accepts (W : Cfg) (b : Bound) (t : Tmpl) (d : DNA) (v : Tmpl)
+    (hP : HooksPlain W)
     (hwf : wfT t = true) (hok : okB b t = true) (hdec : decode W t d = .ok v) : okB b v = true :=
-  okB_shape W b t v hok (DsD_all W t hwf d v hdec).2
+  okB_shape W b t v hok (DsD_all W hP t hwf d v hdec).2
 
 /-- Without a filter the accepted decoded value is a number within the bounds. -/
 theorem C13_bound_spec_number (b : Bound) (t : Tmpl) (d : DNA) (v : Tmpl)
     (hwf : wfT t = true) (hok : okB b t = true) (hdec : decode noFilter t d = .ok v) :
     ∃ a x, v = .const a ∧ a.num? = some x ∧ b.has x = true := by
-  have h1 := okB_shape noFilter b t v hok (DsD_all noFilter t hwf d v hdec).2
-  have h2 := (DsD_all noFilter t hwf d v hdec).1
+  have h1 := okB_shape noFilter b t v hok (DsD_all noFilter (noHooks_lawful _).2.1 t hwf d v hdec).2
+  have h2 := (DsD_all noFilter (noHooks_lawful _).2.1 t hwf d v hdec).1
   cases v with
   | const a =>
     simp only [okB] at h1
@@ -210,8 +371,9 @@ theorem C13_bound_spec_number (b : Bound) (t : Tmpl) (d : DNA) (v : Tmpl)
     | none => simp [ha] at h1
     | some x => exact ⟨a, x, rfl, ha, by simpa [ha] using h1⟩
   | node l vs => simp [okB] at h1
-  | choice tag one k cs ds so => simp [detT, noFilter] at h2
-  | floatv tag lo hi => simp [detT, noFilter] at h2
+  | choice tag one k cs ds so => simp [detT, noFilter, noHooks] at h2
+  | floatv tag lo hi => simp [detT, noFilter, noHooks] at h2
+  | custom tag cid => simp [okB] at h1
 
 /-- A `floatv` that straddles a zero bound is *not* accepted (what `Float.custom_apply` must refuse;
 the seeded regression `if float_spec.min_value and …` accepts it). -/
@@ -226,19 +388,20 @@ with any DNA valid for its own spec succeeds, leaves no placeholder, and stays w
 the **original** template. (On the code this requires that the partially decoded value carries
 no state computed from the placeholders it no longer contains; the harness compares the dna_spec
 of the partial value with the model's and with an equal value constructed from scratch.) -/
-theorem C13_two_stage (W : Nat → Bool) (t : Tmpl) (d₁ d₂ : DNA) (v : Tmpl)
+theorem C13_two_stage (W : Cfg) (t : Tmpl) (d₁ d₂ : DNA) (v : Tmpl)
+    (hL : HooksLawful W) (hP : HooksPlain W)
     (hwf : wfT t = true) (h₁ : decode W t d₁ = .ok v)
-    (hv₂ : validG (dnaSpec noFilter v) d₂ = true) :
-    wfT v = true ∧ ∃ v₂, decode noFilter v d₂ = .ok v₂ ∧ detT noFilter v₂ = true ∧
-      shapeT noFilter v v₂ = true ∧ shapeT noFilter t v₂ = true := by
-  have hs := (DsD_all W t hwf d₁ v h₁).2
+    (hv₂ : validG W.dom (dnaSpec (allOf W) v) d₂ = true) :
+    wfT v = true ∧ ∃ v₂, decode (allOf W) v d₂ = .ok v₂ ∧ detT (allOf W) v₂ = true ∧
+      shapeT (allOf W) v v₂ = true ∧ shapeT (allOf W) t v₂ = true := by
+  have hs := (DsD_all W hP t hwf d₁ v h₁).2
   have hwfv := wfT_shape W t v hwf hs
-  obtain ⟨v₂, hdec₂, hdet, hsh⟩ := C13_decode_total noFilter v d₂ hwfv hv₂
+  obtain ⟨v₂, hdec₂, hdet, hsh⟩ := C13_decode_total (allOf W) v d₂ hL hP hwfv hv₂
   exact ⟨hwfv, v₂, hdec₂, hdet, hsh, shape_comp W t v v₂ hs hsh⟩
 
 /-- `Dict(x=oneof([oneof([1, 2], tag 2), 3], tag 1))`, first stage selects the inner choice only:
 the partial value is `oneof([2, 3])` with a space of 2 points (the seeded regression kept 3). -/
-example : decode (fun tag => tag == 2)
+example : decode (noHooks (fun tag => tag == 2))
       (.choice 1 true 1 [.choice 2 true 1 [.const (.int 1), .const (.int 2)] true false, .const (.int 3)] true false)
       (.mk (some (.idx 1)) []) =
     .ok (.choice 1 true 1 [.const (.int 2), .const (.int 3)] true false) := by rfl
@@ -266,12 +429,12 @@ def dNested : DNA :=
 example : wfT tNested = true := by decide
 example : headDistinct noFilter tNested = true := by decide
 example : nfD dNested = true := by decide
-example : validG (dnaSpec noFilter tNested) dNested = true := by decide
+example : validG noFilter.dom (dnaSpec noFilter tNested) dNested = true := by decide
 example : decode noFilter tNested dNested =
     .ok (.node (.dict ["x", "y"]) [.node .list [.const (.int 5), .const (.int 7)], .const (.flt ⟨5, 1⟩)]) := by rfl
 /-- with a filter that selects the outer choice and `y` only (the inner placeholders stay) -/
-example : headDistinct (fun tag => tag == 1 || tag == 5) tNested = true := by decide
-example : validG (dnaSpec (fun tag => tag == 1 || tag == 5) tNested)
+example : headDistinct (noHooks (fun tag => tag == 1 || tag == 5)) tNested = true := by decide
+example : validG (fun _ _ => true) (dnaSpec (noHooks (fun tag => tag == 1 || tag == 5)) tNested)
     (.mk none [.mk (some (.idx 0)) [], .mk (some (.flt ⟨5, 1⟩)) []]) = true := by decide
 example : sizeG (dnaSpec noFilter (.choice 1 false 2 [.const (.int 1), .const (.int 2), .const (.int 3)] true true)) = some 3 := by
   decide
